@@ -35,14 +35,16 @@ What is modelled, and how
   `process_completed_block`: `write_data_block` on the `BlockWriter` state with `flags & ~BLK_FLAG_INTERNAL`,
   then for a fragment block `sqfs_frag_table_set(index, location, size word)` and the `FragDedup` transition
   `blockWritten`.
+* `BLK_FLAG_INTERNAL` / `BLK_FLAG_MANUAL_SUBMISSION` (internal.h, both 0x10000000) come from the generated constants
+  (`tools/consts.d/C08.list`).
 * Not modelled: inodes (block sizes, `block start`, fragment reference are the `W`/`D` answers of the driver
   and are compared by the check), `sqfs_block_processor_submit_block` (manual submission), allocation and I/O
   failures, the backlog counters.  `byteCompare` is `true` (how `lib/common/src/writer/init.c` configures the
   processor).
 * `Err.internal`: the worked fragment block that reaches `process_completed_block` differs from what
-  `FragDedup.blockWritten` says is stored (other bytes, other compressed bit, or marked sparse).  The two are computed from the same bytes by the same rule
-  (`processBlock` vs. `blockWritten`); the exit exists so that the link theorems need no lemma about closed
-  blocks never changing — on every run of the check the model never takes it.
+  `FragDedup.blockWritten` says is stored (other bytes, other compressed bit, or marked sparse).  The two are computed
+  from the same bytes by the same rule (`processBlock` vs. `blockWritten`); `Sqfs.C08.stream_no_error` proves this exit —
+  like `Err.writer` and `Err.frag` — unreachable: a run can only end in `badEvent` or `unsupported`.
 -/
 import Sqfs.Generated.Consts
 import Sqfs.Model.BlockWriter
@@ -54,9 +56,6 @@ open Sqfs.BlockWriter (hasFlag)
 abbrev Bytes := List UInt8
 abbrev Codec := Sqfs.FragDedup.Codec
 
-/-- `BLK_FLAG_INTERNAL` = `BLK_FLAG_MANUAL_SUBMISSION` (internal.h) -/
-def blkFlagInternal : Nat := 0x10000000
-
 /-- `flags & ~c` on a `sqfs_u32` -/
 def clearFlag (flags c : Nat) : Nat := flags &&& (0xFFFFFFFF ^^^ c)
 
@@ -65,7 +64,7 @@ inductive Err where
   | badEvent                         -- the event is not possible in this state (see the header)
   | frag (e : FragDedup.Err)         -- `process_completed_fragment` failed
   | writer (e : BlockWriter.Err)     -- `write_data_block` failed
-  | internal                         -- worked fragment block ≠ what `FragDedup.blockWritten` stores (see the header)
+  | internal                         -- worked fragment block ≠ what `FragDedup.blockWritten` stores; proved unreachable
 deriving DecidableEq, Repr
 
 /-- `sqfs_block_t` as the main thread sees it -/
@@ -235,7 +234,7 @@ def step (codec : Codec) (h : Bytes → UInt32) (s : State) : Ev → Except Err 
     | blk :: rest =>
       let s0 := { s with pool := rest }
       if hasFlag blk.flags blkIsFragment then handleFragment codec h s0 blk
-      else if !hasFlag blk.flags blkFragmentBlock || hasFlag blk.flags blkFlagInternal then
+      else if !hasFlag blk.flags blkFragmentBlock || hasFlag blk.flags blkFlagManualSubmission then
         let b' := { blk with seq := s0.ioSeq }
         .ok ({ s0 with ioSeq := s0.ioSeq + 1, ioQueue := storeIo b' s0.ioQueue }, .numbered b')
       else .ok ({ s0 with ioQueue := storeIo blk s0.ioQueue }, .fragBlock blk)
